@@ -18,6 +18,34 @@ DRVNOTE = (TB + "Hypotheses used as axioms (not proved here): the LR(0)-automato
        "is not modelled. Literature lemma (stated, not mechanised): a shift-reduce run whose every reduction pops rhs(r) and pushes lhs(r) is a reversed rightmost derivation. "
        "The TypeScript driver string is not verified (only the numbers the Go code emits into it).")
 claimed = {
+ "C02": dict(
+   text="Completeness is cut along the pipeline. Deductively proved on the real code: the lookback / includes relations satisfy the DeRemer-Pennello "
+        "path conditions (C03; found and fixed: they were ignored), Union is set union and never aliases its first argument (the finished set of another "
+        "node), GenTable encodes each cell as error / accept / shift target / -rule of a transition of that state under its lookahead with column 0 = error "
+        "and no zero cell, CheckAndResolveConflict's surviving action is a candidate of its cell, the packed lookup equals the dense table (C05), and the "
+        "generated driver executes the table (C01). A BOUNDED stand-in closes the gap end to end: for conflict-free grammars the dense table must equal the "
+        "LALR(1) table built by merging canonical LR(1) states, and the table-driven parse must accept every sentence of length <= 4 found by a bounded derivation search.",
+   note=TB + "NOT proved deductively (bounded stand-in only: 9 fixed grammars + 400 pseudo-random grammars quick / 20000 thorough, <= 5 nonterminals, <= 6 terminals, "
+        "<= 9 rules): Digraph/Traverse, CalcDR, reads, completeness of the relation lists, that GenTable drops no candidate of a conflict-free cell, BuildTrans. "
+        "Literature theorems used, not mechanised: DeRemer-Pennello, and that LALR(1) tables accept exactly L(G).",
+   design="§5 C02", technique="contract-based deductive verification of the pipeline stages + bounded run-time contract evaluation end to end"),
+ "C12": dict(
+   text="Deductive proof that the productive-nonterminal and nullable computations are least fixpoints in the sense the property needs: when "
+        "CalculateCanTerminate / CalculateEpsilonClosure stop, every rule whose right-hand side is all marked has a marked left-hand side (closed); a symbol is "
+        "marked only at a moment when the whole right-hand side of one of its rules is already marked (justified - this is the clause a skipped self-reference "
+        "breaks); marks are never removed and nothing else is written (frame); the returned list is exactly the unmarked nonterminals of VnSet, so generation is "
+        "refused iff some nonterminal is unproductive.",
+   note=TB + "That closed + justified-at-marking-time implies LEAST fixpoint is the standard ranking argument, stated not mechanised. Termination of the fixpoint loops is "
+        "not proved. NOT under contract: the undefined-symbol panic in RuleVistor.Process, the nonterminal-without-rule check and the 2000-state limit in BuildLALR1.",
+   design="§5 C12", technique="contract-based deductive verification (loop invariants + statement-level assertions)"),
+ "C17": dict(
+   text=DRV + "C17: fmt.Printf is modelled by a ghost output log. TraceShift is proved to log exactly (name of the pushed symbol, pushed state); PushStateSym logs exactly "
+        "one such line per push, for the entry it pushes; in Parser the reduce line is logged after the reduction and before the goto push and carries the rule actually "
+        "reduced, the state actually pushed and the name of the lookahead that triggered it. Generator side: buildTranslate emits symbol id -> RemoveTempName(name) and "
+        "case i -> text of visitor rule i-1; RemoveTempName is proved to show a character literal as 'c' and every other name unchanged.",
+   note=DRVNOTE + " TraceReduce and TraceTranslate are the generated switches (trusted contracts tied to the grammar by the emits obligations). That the printed run is a legal "
+        "run of the automaton follows from C01's step contracts. The right-hand-side text of a rule in the trace is covered for the left part only.",
+   design="§5 C17", technique="contract-based deductive verification with a ghost output log + emits contracts"),
  "C09": dict(
    text="Deductive proof of the leaf operations the canonical-collection construction is built from: InsertItem keeps the representation invariant of an item "
         "set (map == list, no duplicates) and appends exactly when the item is new; InsertGoTO likewise for transitions; LR0.CheckIsExist returns an index iff a state "
